@@ -6,6 +6,7 @@ From RV Require Import Gen.Units Model.SvgSize Proofs.SvgSize.
 From Coq Require Import String.
 From RV Require Import Gen.PctAxis Model.ViewportPrims Gen.LeafViewport Proofs.Viewport.
 From RV Require Import Gen.LeafImage Proofs.ImageFit.
+From RV Require Import Gen.LeafMarker Proofs.Marker.
 From RV Require Import Gen.Consts Gen.RenderLimit Proofs.RenderLimit.
 Local Open Scope Q_scope.
 
@@ -240,6 +241,63 @@ Theorem C17_render_limit_contains_canvas : forall w h, (0 < w -> 0 < h ->
   - (h * MAXBB_OFF_Y) <= 0 /\ h <= - (h * MAXBB_OFF_Y) + h * MAXBB_MUL_H)%Z.
 Proof. exact render_limit_contains_canvas. Qed.
 Print Assumptions C17_render_limit_contains_canvas.
+
+(* --- final pass: the marker viewport (marker.rs); marker_rect / marker_stroke_scale / marker_has_overflow / marker_clip_rect /
+   marker_ts are SOURCE-DERIVED (Gen/LeafMarker.v); the rule is spec_marker_ts / spec_marker_scale of Proofs/Marker.v --- *)
+Theorem C17_marker_ts : forall p z rot r k vb,
+  ts_eq (marker_ts p z rot r k vb) (spec_marker_ts p (if z then ts_identity else rot) r k vb).
+Proof. exact marker_ts_spec. Qed.
+Print Assumptions C17_marker_ts.
+
+Theorem C17_marker_ref_on_vertex : forall p z rot r k vb, t_tx rot == 0 -> t_ty rot == 0 ->
+  map_x (marker_ts p z rot r k vb) (rx r) (ry r) == pt_x p /\ map_y (marker_ts p z rot r k vb) (rx r) (ry r) == pt_y p.
+Proof. exact marker_ref_on_vertex. Qed.
+Print Assumptions C17_marker_ref_on_vertex.
+
+Theorem C17_marker_units : forall sw, marker_stroke_scale true sw = Some 1 /\ marker_stroke_scale false sw = sw.
+Proof. exact marker_units_scale. Qed.
+Print Assumptions C17_marker_units.
+
+Theorem C17_marker_scale_rule : forall r k v, pos_rect r -> 0 < k -> pos_rect (vb_rect v) ->
+  let s := spec_marker_scale r k (Some v) in
+  0 < fst s /\ 0 < snd s /\
+  (ar_align (vb_aspect v) <> ANone -> fst s == snd s) /\
+  (ar_align (vb_aspect v) = ANone -> fst s * rw (vb_rect v) == rw r * k /\ snd s * rh (vb_rect v) == rh r * k) /\
+  (ar_align (vb_aspect v) <> ANone -> ar_slice (vb_aspect v) = false ->
+     fst s * rw (vb_rect v) <= rw r * k /\ snd s * rh (vb_rect v) <= rh r * k) /\
+  (ar_align (vb_aspect v) <> ANone -> ar_slice (vb_aspect v) = true ->
+     rw r * k <= fst s * rw (vb_rect v) /\ rh r * k <= snd s * rh (vb_rect v)).
+Proof. exact marker_scale_rule. Qed.
+Print Assumptions C17_marker_scale_rule.
+
+Theorem C17_marker_clip_rule : forall o,
+  marker_has_overflow o = negb (match o with Some s => negb (String.eqb s "hidden" || String.eqb s "scroll") | None => false end).
+Proof. exact marker_clip_rule. Qed.
+Print Assumptions C17_marker_clip_rule.
+
+Theorem C17_marker_clip_rect : forall r vb,
+  marker_clip_rect r vb = match vb with Some v => vb_rect v | None => {| rx := 0; ry := 0; rw := rw r; rh := rh r |} end.
+Proof. exact marker_clip_rect_rule. Qed.
+Print Assumptions C17_marker_clip_rect.
+
+Theorem C17_marker_rect_rule : forall n st,
+  let d l dflt base := spec_dim (Some (opt_unwrap_or l dflt)) (Some base) 0 (st_dpi st) (st_fs st) in
+  let W := rw (st_view_box st) in let H := rh (st_view_box st) in
+  match marker_rect n st with
+  | Some r => rx r == d (mk_ref_x n) len_zero W /\ ry r == d (mk_ref_y n) len_zero H /\
+              rw r == d (mk_width n) (len_num 3) W /\ rh r == d (mk_height n) (len_num 3) H /\ 0 < rw r /\ 0 < rh r
+  | None => ~ (0 < d (mk_width n) (len_num 3) W /\ 0 < d (mk_height n) (len_num 3) H)
+  end.
+Proof. exact marker_rect_rule. Qed.
+Print Assumptions C17_marker_rect_rule.
+
+(* non-vacuity: markerWidth 6 x markerHeight 4, stroke width 2 (strokeWidth units), viewBox 0 0 12 4 meet, ref (3, 1) at vertex (48, 64):
+   scale 1 on both axes, ref lands on the vertex *)
+Example C17_marker_nv :
+  let t := marker_ts {| pt_x := 48; pt_y := 64 |} true ts_identity {| rx := 3; ry := 1; rw := 6; rh := 4 |} 2
+             (Some {| vb_rect := {| rx := 0; ry := 0; rw := 12; rh := 4 |}; vb_aspect := {| ar_align := XMidYMid; ar_slice := false |} |}) in
+  Qeq_bool (t_sx t) 1 && Qeq_bool (t_sy t) 1 && Qeq_bool (t_tx t) 45 && Qeq_bool (t_ty t) 63 = true.
+Proof. vm_compute. reflexivity. Qed.
 
 (* non-vacuity: a `use` of width 50% x 40 on a 600x400 viewport referencing a symbol with a viewBox: both the
    transform and the clip rectangle exist, the viewport is 300 x 40 at (10, 20) *)
